@@ -55,8 +55,8 @@ mod verif_rp_c18_migrate {
             for ns in &docs {
                 let mut r = store.new_replica(ns.clone()).unwrap();
                 // (author, key, ts, marker): newest entry of author 0 is `apple` (not its greatest key `zebra`); `doc/a` of author 0 is hidden by author 1's newer marker
-                // in the second document each author's newest entry sits at its SMALLEST key (`aa` / `ab`)
-                let second = ns.id() == docs[1].id();
+                // each author's newest entry sits at its SMALLEST key (`aa` / `ab`), not at its greatest
+                let second = true; // in BOTH documents (which of them sorts first depends on the random ids)
                 let hist: Vec<(usize, &[u8], u64, bool)> = [
                     (0usize, &b"zebra"[..], 10u64, false), (0, b"apple", 30, false), (1, b"mango", 20, false), (1, b"kiwi", 5, false),
                     (0, b"doc/a", 40, false), (1, b"doc/a", 50, true), (0, b"doc/b", 45, false), (1, b"doc/c", 60, true),
